@@ -73,6 +73,44 @@ def index2 (c1 c2 : UInt8) : Bytes → Option Nat
 
 def count (c : UInt8) (s : Bytes) : Nat := (s.filter (· == c)).length
 
+/-- length of the valid UTF-8 sequence at the head of `s` (Go's `utf8.DecodeRune` rules), 0 if
+    the first byte does not start one -/
+def utf8Len (s : Bytes) : Nat :=
+  let cont := fun (x : UInt8) => decide (0x80 ≤ x.toNat ∧ x.toNat ≤ 0xBF)
+  match s with
+  | [] => 0
+  | b :: rest =>
+    let n := b.toNat
+    if n < 0x80 then 1 else
+    match rest with
+    | c1 :: r1 =>
+      if 0xC2 ≤ n ∧ n ≤ 0xDF ∧ cont c1 then 2 else
+      match r1 with
+      | c2 :: r2 =>
+        let lo3 := if n == 0xE0 then 0xA0 else 0x80
+        let hi3 := if n == 0xED then 0x9F else 0xBF
+        if 0xE0 ≤ n ∧ n ≤ 0xEF ∧ lo3 ≤ c1.toNat ∧ c1.toNat ≤ hi3 ∧ cont c2 then 3 else
+        match r2 with
+        | c3 :: _ =>
+          let lo4 := if n == 0xF0 then 0x90 else 0x80
+          let hi4 := if n == 0xF4 then 0x8F else 0xBF
+          if 0xF0 ≤ n ∧ n ≤ 0xF4 ∧ lo4 ≤ c1.toNat ∧ c1.toNat ≤ hi4 ∧ cont c2 ∧ cont c3 then 4 else 0
+        | [] => 0
+      | [] => 0
+    | [] => 0
+
+def jsonRoundTripFuel : Nat → Bytes → Bytes
+  | 0, _ => []
+  | _ + 1, [] => []
+  | f + 1, s =>
+    let k := utf8Len s
+    if k = 0 then 0xEF :: 0xBF :: 0xBD :: jsonRoundTripFuel f (s.drop 1)
+    else s.take k ++ jsonRoundTripFuel f (s.drop k)
+
+/-- what a Go string becomes after `encoding/json` encodes it and a JSON parser decodes it again:
+    every byte that is not part of a valid UTF-8 sequence is replaced by U+FFFD -/
+def jsonRoundTrip (s : Bytes) : Bytes := jsonRoundTripFuel (s.length + 1) s
+
 end Bytes
 
 def natToString (n : Nat) : String := toString n
